@@ -79,29 +79,36 @@ def decItems : Nat → Nat → Bytes → Option (Slots × Bytes)
       | some (xs, r') => some (.item x xs, r')
 end
 
+/-- parseMessageLength and the PType test: at least 14 bytes, the declared length equals the
+bytes present, header byte 4 (PType) is 0 -/
+def frameOk (inp : Bytes) : Bool :=
+  !(decide (inp.length < 14)) && ((inp.drop 4).length == beDec (inp.take 4)) && (inp.getD 8 0 == 0)
+
+/-- SType 0: the text is empty, or exactly one item with nothing left over -/
+def decodeData (inp : Bytes) : Option HMsg :=
+  let h := (inp.drop 4).take 10
+  let text := inp.drop 14
+  let item? : Option Tmpl :=
+    if beDec (inp.take 4) == 10 then some .empty
+    else match decItem (text.length + 1) text with
+      | some (t, []) => some t
+      | _ => none
+  match item? with
+  | none => none
+  | some item =>
+    (mkHsmsMsg [] (h.getD 2 0 % 128 : Nat) (h.getD 3 0 : Nat) (h.getD 2 0 / 128 : Nat) dirBoth item
+      (beDec (h.take 2) : Nat) (h.drop 6)).map HMsg.data
+
+/-- a control message is exactly a header -/
+def decodeCtrl (inp : Bytes) : Option HMsg :=
+  if beDec (inp.take 4) != 10 then none else (mkCtrl ((inp.drop 4).take 10)).map HMsg.ctrl
+
 /-- hsms.Parse -/
 def decode (inp : Bytes) : Option HMsg :=
-  if inp.length < 14 then none else
-  let msgLength := beDec (inp.take 4)
-  let rest := inp.drop 4
-  if rest.length != msgLength then none else
-  let h := rest.take 10
-  let text := rest.drop 10
-  if h.getD 4 0 != 0 then none else
-  let st := h.getD 5 0
-  if st == 0 then
-    let item? : Option Tmpl :=
-      if msgLength == 10 then some .empty
-      else match decItem (text.length + 1) text with
-        | some (t, []) => some t
-        | _ => none
-    match item? with
-    | none => none
-    | some item =>
-      (mkHsmsMsg [] (h.getD 2 0 % 128 : Nat) (h.getD 3 0 : Nat) (h.getD 2 0 / 128 : Nat) dirBoth item
-        (beDec (h.take 2) : Nat) (h.drop 6)).map HMsg.data
-  else if (1 ≤ st && st ≤ 7) || st == 9 then
-    if msgLength != 10 then none else (mkCtrl h).map HMsg.ctrl
+  if !frameOk inp then none else
+  let st := inp.getD 9 0
+  if st == 0 then decodeData inp
+  else if (1 ≤ st && st ≤ 7) || st == 9 then decodeCtrl inp
   else none
 
 end Secs
